@@ -24,10 +24,15 @@ def sampled_patterns(rng, kernel, nmin, nmax, count):
         if kernel == "trsbox":
             nmov = sum(1 for p, s in zip(out[-1]["pos"], out[-1]["sgn"]) if p == "in" and s != "zero")
             u = rng.random()
-            if nmov >= 2 and u < 0.25:
+            nlive = sum(1 for p, s in zip(out[-1]["pos"], out[-1]["sgn"]) if p in ("in", "free") and s != "zero")
+            if nmov >= 2 and u < 0.2:
                 out[-1]["coin"] = "tied_bounds"
-            elif nmov >= 1 and u < 0.5:
+            elif nmov >= 1 and u < 0.4:
                 out[-1]["coin"] = "bound_on_sphere"
+            elif nmov >= 1 and nlive >= 3 and u < 0.7:
+                out[-1].update(coin="bound_then_arc", hk=str(rng.choice(["indefinite", "psd_lowrank"])))
+            elif nmov >= 1 and u < 0.8:
+                out[-1].update(coin="bound_at_delta", hk="zero")
     return out
 
 
@@ -47,6 +52,9 @@ def run_kernel_check(prop, tier, kernels_wanted, solver_insts, reps, sample_coun
             idx = rng.choice(len(inside), size=min(cnt, len(inside)), replace=False)
             # every 'active' pattern; two active half-spaces (the slowly converging case of the alternating projections) several times over
             ks = [inside[int(i)] for i in idx] + [s for s in ks if s["act"] == "active"] + [s for s in ks if s["act"] == "active" and list(s["sets"]) == ["half", "half"]] * 2
+        if k == "trsbox":
+            # classes whose outcome depends on the digits of the data are concretised many more times (a call costs ~0.1 ms)
+            ks = ks + [s for s in ks if s.get("coin") == "bound_at_delta"] * 40
         sel += ks
         if k in ("trsbox", "trsbox_geometry"):
             sel += sampled_patterns(rng, k, maxn + 1, 8, sample_counts.get(k + "_hi", 300))
